@@ -101,6 +101,12 @@ def harness(ctx):
     use_acc = ctx.choose_bool("-acc", free=True)
     inputs = build(n, seed)
     d = os.path.join(H.scratch(), "c12-%d" % n)
+    if axis == "location" and ctx.choose("seven-digit-station-ids", (False, True), free=True):
+        # identifiers are printed in full (two stations must never share a row label)
+        for ai in inputs:
+            ai.locs = [(1234567 + 7 * j,) + tuple(l[1:]) for j, l in enumerate(ai.locs)]
+        d += "-ids7"
+        ctx.flag("seven-digit-ids")
     if metric == "corr" and n >= 2 and ctx.choose("last-input-has-a-constant-forecast", (False, True), free=True):
         # a score that is undefined (nan) on every row for one input only, although its data are valid
         for pos in inputs[-1].fields["fcst"]:
@@ -211,7 +217,12 @@ def harness(ctx):
                         actual=row[0])
         elif axis in RD.LOC_AXES:
             meta = ref.locmeta[k]
-            ok = all(CD.close_printed(float(meta[j]), row[j], 6) for j in range(4))
+            ok = all(CD.close_printed(float(meta[j]), row[j], 6) for j in range(1, 4))
+            # the identifier is printed in full in both formats (two stations never share a row label)
+            try:
+                ok = ok and float(row[0]) == float(meta[0])
+            except ValueError:
+                ok = False
             ctx.require(ok, "row-label:location", expected=list(meta), actual=row[:4])
         elif axis != "no":
             ctx.require(CD.close_printed(float(vals[k]), row[0], 6), "row-label:%s" % axis, expected=vals[k], actual=row[0])
@@ -393,7 +404,7 @@ def run(tier, only=None):
         st = explore.explore(h, mode="full", params=params, repo_root=core.REPO, time_cap=(400 if tier == "quick" else 3000))
         subs.append(core.Sub.from_e1(name, st, bound={"tables": "full product inputs x metrics x axes x {csv,text} x -f x -leg x -acc (x {one, two} thresholds for threshold metrics on data axes)", "refuse": "26 diagrams x {csv,text}", "obsfcst": "full product inputs x 6 axes x {csv,text} x 4 quantile lists x 2 aggregators", "names": "{csv,text} x 3 ways of giving two inputs the same / a confusing name x 3 axes"}[name],
                                      rule="one execution = one command line; header, row labels and every number compared with the reference; non-trivial = more than one row or column",
-                                     required_flags=("two-thresholds", "undefined-for-one-threshold", "undefined-column") if name == "tables" else (), wall=time.time() - t0))
+                                     required_flags=("two-thresholds", "undefined-for-one-threshold", "undefined-column", "seven-digit-ids") if name == "tables" else (), wall=time.time() - t0))
     return subs
 
 
